@@ -21,7 +21,7 @@ import concurrent.futures as cf
 import lib
 
 TAGS = ["FramesAtomic", "CompletedOnceAfterPending", "NothingForUnannounced", "HasNextFalseExactlyLast",
-        "Terminates", "Applies", "Reconstructs", "IfFalseEqual"]
+        "Terminates", "Applies", "Reconstructs", "IfFalseEqual", "NoWriteAfterDisconnect", "ReleasesOnDisconnect"]
 
 
 # ----------------------------------------------------------------------------------------- rendering
@@ -36,6 +36,9 @@ class Op:
         self.dup = st["dup"]
         self.root = st["root"]
         self.al = set(st.get("al") or [])
+        self.nc = st.get("nc") or [""] * len(self.nodes)
+        self.reuse = st.get("reuse") or []
+        self.cvars = {}
 
     def kids(self, h):
         return [i + 1 for i, n in enumerate(self.nodes) if n["p"] == h]
@@ -63,7 +66,20 @@ class Op:
     def host_type(self, h):
         return self.root if h == 0 else self.node(h)["ty"]
 
+    def cond(self, c, var):
+        """@skip/@include text for condition code c (skipT, inclVF, ...); variable conditions use $var."""
+        if not c:
+            return ""
+        d = "skip" if c.startswith("skip") else "include"
+        if "V" in c:
+            self.cvars[var] = c.endswith("T")
+            return " @%s(if: $%s)" % (d, var)
+        return " @%s(if: %s)" % (d, "true" if c.endswith("T") else "false")
+
     def directive(self, j, variant):
+        return self.defer_directive(j, variant) + self.cond(self.frags[j - 1].get("cond", ""), "cf%d" % j)
+
+    def defer_directive(self, j, variant):
         fr = self.frags[j - 1]
         if variant == "strip":
             return ""
@@ -80,9 +96,11 @@ class Op:
     def field(self, x, variant, copy=False):
         n = self.node(x)
         if n["ty"] == "":
-            return n["f"]
+            return n["f"] + ("" if copy else self.cond(self.nc[x - 1], "cn%d" % x))
         # an aliased field keeps its alias in every copy (same response position, the copies merge)
         name = ("a%d: %s" % (x, n["f"])) if x in self.al else n["f"]
+        if not copy:
+            name += self.cond(self.nc[x - 1], "cn%d" % x)
         if copy:
             leafs = [y for y in self.kids(x) if self.node(y)["ty"] == "" and self.node(y)["tc"] == ""]
             return "%s { %s }" % (name, " ".join(self.node(y)["f"] for y in leafs))
@@ -126,6 +144,12 @@ class Op:
             parts.append(text)
         if after:
             parts.append(self.render_items([("d", x) for x in after], variant, ""))
+        for r in self.reuse:
+            if r["host"] == h:
+                d = ""
+                if r["d"] and variant != "strip":
+                    d = " @defer(if: false)" if variant == "iffalse" else " @defer"
+                parts.append("...F%d%s" % (r["f"], d))
         return " ".join(parts)
 
     def fragment(self, j, variant):
@@ -140,8 +164,9 @@ class Op:
 
     def text(self, variant):
         self.defs = []
+        self.cvars = {}
         body = self.selset(0, variant)
-        varz = {}
+        varz = dict(self.cvars)
         if variant != "strip":
             for j, fr in enumerate(self.frags, 1):
                 if fr["mode"] in ("varTrue", "varFalse"):
@@ -387,6 +412,13 @@ def classify(tag, row, info):
         if kinds == ["null-in-subpath"]:
             return "null-in-subpath", sorted({".".join(p) for _, p in problems})
         return "+".join(kinds) or "other", sorted({k + ":" + ".".join(p) for k, p in problems})[:6]
+    if tag == "NoWriteAfterDisconnect":
+        after = row["calls"].split("x", 1)[1] if "x" in row["calls"] else ""
+        # W = a failed Write, X = a failed Flush; one single failed Write per still pending group = the group tried to start
+        # its (error) frame, got the error and stopped
+        if "X" not in after and after.count("W") <= max(1, len(info.get("groups") or [])):
+            return "one-write-per-pending-group", [after]
+        return "other", [after]
     return "-", []
 
 
@@ -449,7 +481,8 @@ def run(ctx):
         opsP = uniq(gp.printed)   # focused family: sibling fragments sharing an object field with a fragment nested inside it
         opsS = [s for s in uniq(gs.printed) if len(s["acts"]) >= 2]
         scheds = uniq(gk.printed)
-        plain = [s for s in scheds if not s["park"] and not s["fault"]]
+        cuts = [s for s in scheds if s["cut"]]
+        plain = [s for s in scheds if not s["park"] and not s["fault"] and not s["cut"]]
         parks = [s for s in scheds if s["park"]]
         faults = [s for s in scheds if s["fault"]]
         ctx.log("generated: %d single-action operations x <=1 aliased ancestor (BFS, exhaustive), %d operations of the focused "
@@ -460,7 +493,12 @@ def run(ctx):
         plain1 = [o for o in ops1 if not o["al"]]
         alias1 = [o for o in ops1 if o["al"]]
         if quick:
-            chosen = plain1[:150] + alias1[:140] + opsP + opsS[:380]
+            def has_cond(o):
+                return any(o["nc"]) or any(f["cond"] for f in o["frags"])
+            condS = [o for o in opsS if has_cond(o)]
+            reuseS = [o for o in opsS if o["reuse"]]
+            restS = [o for o in opsS if not has_cond(o) and not o["reuse"]]
+            chosen = plain1[:140] + alias1[:120] + opsP + condS[:110] + reuseS[:90] + restS[:200]
         else:
             chosen = ops1 + opsP + opsS[:2000]
         if os.environ.get("C10_OPS"):  # developer knob: "<bfs>,<sim>"
@@ -469,9 +507,9 @@ def run(ctx):
 
         def pick_scheds():
             if quick:
-                return rng.sample(plain, 10) + rng.sample(parks, 4) + rng.sample(faults, 3)
+                return rng.sample(plain, 9) + rng.sample(parks, 4) + rng.sample(faults, 3) + rng.sample(cuts, 3)
             # all 120 orders over 5 indices (the driver restricts them to the observed exchanges and de-duplicates)
-            return plain + rng.sample(parks, 12) + rng.sample(faults, 10)
+            return plain + rng.sample(parks, 12) + rng.sample(faults, 10) + rng.sample(cuts, 10)
         # different generator states can print the same operation (e.g. creation order of the fragments)
         seen_text, uniq_chosen = set(), []
         for st in chosen:
@@ -482,7 +520,7 @@ def run(ctx):
         chosen = uniq_chosen
         cases = []
         for i, st in enumerate(chosen):
-            cases.append(make_case("c%05d" % i, st, pick_scheds(), 12 if quick else 60))
+            cases.append(make_case("c%05d" % i, st, pick_scheds(), 14 if quick else 70))
         st_by_id = {c["id"]: st for c, st in zip(cases, chosen)}
     by_id = {c["id"]: c for c in cases}
 
@@ -536,7 +574,7 @@ def run(ctx):
         raise lib.Inconclusive("%d runs were not judged by TLC (e.g. %s)" % (len(missing), missing[0]))
 
     # ---- verdicts ------------------------------------------------------------------------------------------------
-    n_runs = n_gated = n_faulted = n_parked = n_parkrel = n_cmp = n_unreal = n_stream = 0
+    n_runs = n_gated = n_faulted = n_parked = n_parkrel = n_cmp = n_unreal = n_stream = n_cut = 0
     orders = set()
     distinct = set()
     tree_bad = groups_bad = 0
@@ -549,6 +587,8 @@ def run(ctx):
         sch = row["sched"]
         if sch:
             n_gated += 1
+        if row.get("cut"):
+            n_cut += 1
         if row["applied"]:
             n_faulted += 1
         if row["parked"]:
@@ -561,9 +601,9 @@ def run(ctx):
             n_unreal += 1
         if len(row["frames"]) > 1:
             n_stream += 1
-        orders.add((row["case"], tuple(row["order"] or []), sch and sch["park"], sch and sch["parkAt"], sch and sch["fault"], sch and sch["faultAt"]))
+        orders.add((row["case"], tuple(row["order"] or []), sch and sch["park"], sch and sch["parkAt"], sch and sch["fault"], sch and sch["faultAt"], sch and sch.get("cut"), sch and sch.get("cutAt")))
         if len(row["frames"]) > 1:
-            distinct.add(lib.sha([c["query"], c["nulls"], row["order"], sch and [sch["park"], sch["parkAt"], sch["fault"], sch["faultAt"]]]))
+            distinct.add(lib.sha([c["query"], c["nulls"], row["order"], sch and [sch["park"], sch["parkAt"], sch["fault"], sch["faultAt"], sch.get("cut"), sch.get("cutAt")]]))
         pl = plans.get(rid)
         if pl and not pl["tree"]:
             tree_bad += 1
@@ -574,7 +614,7 @@ def run(ctx):
             v = v + ["Panic"]
         for tag in v:
             sub, detail = classify(tag, row, info)
-            key = "%s|%s|%s|nulls=%s|%s" % (tag, "faulted" if row["applied"] else "nofault", sub, ",".join(c["nulls"]), c["query"])
+            key = "%s|%s|%s|nulls=%s|%s" % (tag, "faulted" if row["applied"] else ("cut" if row.get("cut") else "nofault"), sub, ",".join(c["nulls"]), c["query"])
             what = "%s violated (%s %s): %s; operation %s vars=%s nulls=%s schedule=%s realised order=%s" % (
                 tag, sub, detail, EXPLAIN.get(tag, ""), c["query"], c["vars"] or "{}", c["nulls"], json.dumps(sch), row["order"])
             rejected_runs[tag + "|" + sub] = rejected_runs.get(tag + "|" + sub, 0) + 1
@@ -607,7 +647,13 @@ def run(ctx):
         c = by_id[i]
         rejected_runs["Reconstructs|engine-error"] = rejected_runs.get("Reconstructs|engine-error", 0) + 1
         if len(ctx.violations) < 40:
-            ctx.violation("Reconstructs|nofault|engine-error|nulls=%s|%s" % (",".join(c["nulls"]), c["query"]),
+            sub = "engine-error"
+            if "must be unique, but was already used" in info["learnErr"] and ("@skip" in c["query"] or "@include" in c["query"]) \
+                    and c["query"].count('label: "') == len(set(x.split('"')[0] for x in c["query"].split('label: "')[1:])):
+                # every label occurs once in the text: the uniqueness rule saw one directive twice (node revisit after a
+                # @skip(if:true)/@include(if:false) deletion)
+                sub = "engine-error-label-revisit"
+            ctx.violation("Reconstructs|nofault|%s|nulls=%s|%s" % (sub, ",".join(c["nulls"]), c["query"]),
                           "the engine executes the operation without @defer and with @defer(if:false) but fails with %r for the @defer variant "
                           "(no frame is written): operation %s vars=%s nulls=%s" % (info["learnErr"][:300], c["query"], c["vars"] or "{}", c["nulls"]),
                           {"case": c, "generator_state": st_by_id[i], "schedule": None, "engine_error": info["learnErr"],
@@ -659,6 +705,7 @@ def run(ctx):
         "distinct_realised_schedules": len(orders),
         "runs_with_reference_comparison": n_cmp,
         "runs_with_injected_failure": n_faulted,
+        "runs_with_client_disconnect": n_cut,
         "runs_with_writer_parked": n_parked,
         "runs_with_exchange_completed_while_parked": n_parkrel,
         "unrealised_schedules": n_unreal,
@@ -691,5 +738,7 @@ EXPLAIN = {
     "Applies": "an incremental item cannot be applied: pending.path ++ subPath does not exist in the data delivered so far, or it overwrites a delivered value with a different one",
     "Reconstructs": "initial data + incrementals applied at pending.path ++ subPath differs from the data of the same query without @defer",
     "IfFalseEqual": "the query with @defer(if:false) returns different data than the query without @defer",
+    "NoWriteAfterDisconnect": "the writer was called again after a writer call had failed (client gone, request context cancelled)",
+    "ReleasesOnDisconnect": "goroutines were left behind after the client disconnected",
     "Panic": "the engine panicked",
 }
